@@ -516,6 +516,10 @@ pub fn gen_c02(r: &mut Rng) -> ScriptCase {
     // CRLF line ends sometimes: the SQL that reaches the database is joined by LF all the same
     let crlf = r.chance(1, 6);
     let (text, text2) = if crlf { (text.replace('\n', "\r\n"), text2.map(|t| t.replace('\n', "\r\n"))) } else { (text, text2) };
+    let mut labels2 = labels2;
+    if text2.is_some() && r.chance(1, 4) {
+        labels2.push("@shutdown".to_string());
+    }
     let tag = format!("c02 halt={} second={} labels2={} api_threshold={} crlf={}", halt_at.is_some(), text2.is_some(), labels2.len(), threshold, crlf);
     ScriptCase { strict_cols: r.chance(1, 4), threshold, labels, locals, text, text2, labels2, db, tag, ..Default::default() }
 }
